@@ -78,7 +78,7 @@ func c03Server(c *cx) {
 		c.r.Check("C03.2", f, "return Authn [error operand]", "K: Authn is returned with a nil error only", rs.Pos(), g.RetKindOf(rs) == eng.RetSuccess || g.NilnessOf(rs.Results[len(rs.Results)-1], pt) == -1, "Authn returned together with a possibly non-nil error")
 	}
 	// `more` is the mechanism's own completion flag
-	for _, e := range g.EdgesMatching("!local:more<bool>") {
+	for _, e := range g.EdgesMatching("!local:*<bool>") {
 		for _, a := range e.Atoms {
 			for _, v := range a.Vars {
 				for _, d := range g.DefsOf(v) {
@@ -149,7 +149,7 @@ func c03Server(c *cx) {
 	selStr := "local:" + selV.Name() + "<" + eng.TypeStr(selV.Type()) + ">"
 	c.dom("C03.3", f, newServer, "sasl.NewServer [a mechanism was selected]", []string{"!eq(" + selStr + ".Name,\"\")"})
 	c.dom("C03.3", f, newServer, "sasl.NewServer [<auth/> arm]", []string{"eq(*Local:\"auth\"*XMLName)"})
-	c03Selection(c, f, selV, "local:selection<*>.Name")
+	c03Selection(c, f, selV, "local:*<*>.Name")
 }
 
 // isParamRef: e is a parameter (or captured parameter of the enclosing
@@ -212,7 +212,7 @@ func c03Client(c *cx) {
 		// mechanism complete: no path with more == true
 		pt, _ := g.Where(rs)
 		c.r.Check("C03.6", f, "return Authn [error operand]", "K: Authn is returned with a nil error only", rs.Pos(), g.NilnessOf(rs.Results[len(rs.Results)-1], pt) == -1, "Authn returned together with a possibly non-nil error")
-		c.domAny("C03.6", f, rs, "return Authn [mechanism complete]", []string{"!local:more<bool>", "!mellium.im/sasl.Negotiator.Step[*](*)#0"})
+		c.domAny("C03.6", f, rs, "return Authn [mechanism complete]", []string{"!local:*<bool>", "!mellium.im/sasl.Negotiator.Step[*](*)#0"})
 	}
 	// every Step error is returned: handled by C03.8; client built on the selected mechanism
 	for _, cl := range f.Calls("mellium.im/sasl.NewClient") {
